@@ -244,6 +244,9 @@ def oracle_observers(scn, res):
         if call[0] == "-":
             registered = [x for x in registered if x != call[1]]
             continue
+        if call[0] == "R":       # unregistered from inside a callback of an observer registered before it: nothing further
+            registered = [x for x in registered if x != call[2]]
+            continue
         # transcript of this call, from the reference expectation: request lines and replies in wire order
         ev = canon_tokens(a["ev"], scn, res, ci)
         per = {}
@@ -572,8 +575,18 @@ def fam_observers(rng, n, dist):
                 b.add_observer(rng.choice(pool))
                 dist.add("observer:add")
             elif r < 0.5:
-                b.remove_observer(rng.choice(pool))
-                dist.add("observer:remove")
+                once = [o for o in b.observers if b.observers.count(o) == 1]
+                pairs = [(a, o) for a in once for o in once if b.observers.index(a) < b.observers.index(o)]
+                if pairs and rng.random() < 0.5:
+                    # an observer reacts to an event by unregistering another one: that one receives nothing further,
+                    # not even the event being delivered
+                    a, o = rng.choice(pairs)
+                    b.remove_from_callback(a, o)
+                    add_simple(b, rng)
+                    dist.add("observer:remove-from-inside-a-callback")
+                else:
+                    b.remove_observer(rng.choice(pool))
+                    dist.add("observer:remove")
             elif r < 0.75:
                 add_simple(b, rng)
             elif r < 0.85:
@@ -733,27 +746,7 @@ def fam_faults(rng, n, dist, thorough=False):
         how = rng.choice(["close", "reset", "partial", "partial-code", "data-reset", "data-bare-close", "garbled-setup"])
         r = sess["greeting"] if k < 0 else sess["reactions"][k]
         if how == "garbled-setup":
-            # the 227 / 229 reply carries something else than an endpoint (server-supplied text meets format strings,
-            # address parsers, number parsers): the call must end with ftp_exception, the session goes on
-            ks = next((j for j, x in enumerate(sess["reactions"]) if x["now"] and x["now"][0][0] == "R" and x["now"][0][1] in (227, 229)
-                       and b"{" in x["now"][0][2]), None)
-            if ks is None:
-                how = "close"
-            else:
-                it = sess["reactions"][ks]["now"][0]
-                if it[1] == 227:
-                    bad = rng.choice(["(%1%,0,0,1,{p1},{p2})", "(127,0,0,1%,{p1},{p2})", "(999,0,0,1,{p1},{p2})", "({h},{p1},{p2},)",
-                                      "({h},{p1})", "({h},256,{p2})", "{h},{p1},{p2}", "(::1,0,0,1,{p1},{p2})", "(%s%n%d,0,0,1,{p1},{p2})",
-                                      "({h},{p1},{p2}", "()", "(,,,,,)", "({h},{p1},-1)", "(0x7f,0,0,1,{p1},{p2})", "({h},{p1},99999999999999999999)"])
-                    text = "227 Entering Passive Mode %s." % bad
-                else:
-                    bad = rng.choice(["(|||{P})", "(|||99999|)", "(||{P}|)", "(|||%1%|)", "(|||{P}|", "()", "(||||)", "(|||-1|)", "(|||%s%n|)",
-                                      "|||{P}|", "(|1|127.0.0.1|{P}|)", "(|||18446744073709551616|)", "(   {P} )"])
-                    text = "229 Entering Extended Passive Mode %s" % bad
-                sess["reactions"][ks]["now"][0] = (it[0], it[1], text.encode("latin-1")) + tuple(it[3:])
-                if ks + 1 < len(sess["reactions"]) and sess["reactions"][ks + 1].get("data"):
-                    del sess["reactions"][ks + 1]          # the transfer command is never sent
-                    scn["xfer_map"] = {}
+            how = "close"           # (garbled set-up replies have their own, systematic, scenarios below)
         if how in ("data-reset", "data-bare-close") and not any(x.get("data") for x in sess["reactions"]):
             how = "close"
         if how == "close":
@@ -772,8 +765,6 @@ def fam_faults(rng, n, dist, thorough=False):
                 if x.get("data"):
                     x["data"]["end"] = "R" if how == "data-reset" else "X"
                     x["data"]["segs"] = x["data"].get("segs", [])[:1]
-        elif how == "garbled-setup":
-            pass
         else:
             r["close_after"] = True; r["on_close"] = []
         # expectations of the reference builder no longer apply after the cut: the model decides (correspondence), the
@@ -783,6 +774,32 @@ def fam_faults(rng, n, dist, thorough=False):
         scn["exp"][-1]["check_open"] = False
         dist.add("fault:%s:%s:at-%s" % (base, how, "greeting" if k < 0 else "reaction"))
         out.append(scn)
+    # the 227 / 229 reply carries something else than an endpoint (server-supplied text meets format strings, address
+    # parsers, number parsers): the call must end with ftp_exception and the session goes on. One scenario per text.
+    bad227 = ["(%1%,0,0,1,{p1},{p2})", "(127,0,0,1%,{p1},{p2})", "(999,0,0,1,{p1},{p2})", "({h},{p1},{p2},)", "({h},{p1})",
+              "({h},256,{p2})", "{h},{p1},{p2}", "(::1,0,0,1,{p1},{p2})", "(%s%n%d,0,0,1,{p1},{p2})", "({h},{p1},{p2}", "()", "(,,,,,)",
+              "({h},{p1},-1)", "(0x7f,0,0,1,{p1},{p2})", "({h},{p1},99999999999999999999)", "(1.2.3.4,{p1},{p2})", "(%%,%,%,%,{p1},{p2})"]
+    bad229 = ["(|||{P})", "(|||99999|)", "(||{P}|)", "(|||%1%|)", "(|||{P}|", "()", "(||||)", "(|||-1|)", "(|||%s%n|)", "|||{P}|",
+              "(|1|127.0.0.1|{P}|)", "(|||18446744073709551616|)", "(   {P} )"]
+    for rfc, texts in ((False, bad227), (True, bad229)):
+        for bad in (texts if thorough else rng.sample(texts, 9)):
+            b = S.Builder(rng, "P", rfc, type=rng.choice("IA"))
+            b.connect(login=(b"u", b"p"))
+            kind = rng.choice(["D", "U", "F"])
+            b.transfer(kind, b"f.bin" if kind != "F" else None, payload_segs=[b"x" * 10], chunks=[b"y" * 10])
+            b.simple(b"NOOP", None, 200)
+            b.disconnect(True)
+            scn = b.scenario()
+            sess = scn["sessions"][0]
+            ks = next(j for j, x in enumerate(sess["reactions"]) if x["now"] and x["now"][0][0] == "R" and x["now"][0][1] in (227, 229))
+            it = sess["reactions"][ks]["now"][0]
+            text = ("229 Entering Extended Passive Mode %s" if rfc else "227 Entering Passive Mode %s.") % bad
+            sess["reactions"][ks]["now"][0] = (it[0], it[1], text.encode("latin-1")) + tuple(it[3:])
+            del sess["reactions"][ks + 1]            # the transfer command is never sent
+            scn["xfer_map"] = {}
+            scn["exp"] = [dict(e, throws=False, may_throw=False, check_open=False) for e in scn["exp"]]
+            dist.add("fault:garbled-%d-reply" % (229 if rfc else 227))
+            out.append(scn)
     return out
 
 
@@ -979,9 +996,13 @@ def fam_tls(rng, n, dist):
         plan = dict(pbsz=503 if fault == "pbsz" else 200, prot=534 if fault == "prot" else 200)
         login = (b"user-MARKER-u", b"pass-MARKER-p")
         keep_using = fault in ("ctl-handshake", "unknown-ca") and rng.random() < 0.6
-        b.connect(login=login, auth=rng.choice([500, 534, 502]) if fault == "auth-refused" else 234, plan=plan,
+        # "after a positive answer its next bytes are a TLS handshake": 234 is the usual answer, any other 2xx / 3xx is positive too
+        ok_auth = rng.choice([234, 234, 234, 200, 232, 334, 299])
+        b.connect(login=login, auth=rng.choice([500, 534, 502, 431, 421 if False else 504]) if fault == "auth-refused" else ok_auth, plan=plan,
                   tls_ok=(fault != "ctl-handshake"), tls_close_clean=(fault != "unclean-close"), stay_plain=keep_using)
         dist.add("tls:fault-%s%s" % (fault, "+keeps-using-the-client" if keep_using else ""))
+        if fault != "auth-refused":
+            dist.add("tls:auth-answered-%d" % ok_auth)
         if fault in ("auth-refused", "ctl-handshake", "unknown-ca"):
             if keep_using:
                 # the application ignores the failure and goes on with the same client object: nothing more may be sent
